@@ -84,6 +84,8 @@ PLAN = {
             {"name": "asan", "flavour": "asan", "shards": 4, "shards_thorough": 16},
             {"name": "miri", "flavour": "miri", "shards": 8, "shards_thorough": 64, "timeout": 1200},
             {"name": "memcheck", "leg": "asan", "flavour": "memcheck", "shards": 2, "shards_thorough": 8, "scale": 0.2, "scale_thorough": 10, "timeout": 1800},
+            {"name": "miri-global-race", "leg": "global-race", "flavour": "miri", "shards": 6, "shards_thorough": 32, "timeout": 900},
+            {"name": "tsan-global-race", "leg": "global-race", "flavour": "tsan", "shards": 2, "shards_thorough": 8, "timeout": 900, "thorough_only": True},
         ],
     },
     "C04": {
